@@ -5,7 +5,7 @@
    [modnames] are the identifiers of yr_modules_table.  The model is tied to /repo by checks/c10.py
    on every run (extracted model vs harness/h_hist on random histories, state fields included). *)
 From Coq Require Import List NArith ZArith.
-From YV Require Import Model.Externals Model.ScannerHist Proofs.ScannerProofs.
+From YV Require Import gen.GenConsts Model.Externals Model.ScannerHist Proofs.ScannerProofs.
 Import ListNotations.
 
 (* The property in full ([history_independent_statement], [destroy_no_leak_statement] in
@@ -13,22 +13,16 @@ Import ListNotations.
      forall o h i sc nr, alive after h ->
        trace (step (run h (fresh o)) (Scan i sc nr)) = trace (step (run (settings of h) (fresh o)) (Scan i sc nr))
      forall o h, alive after h -> nothing stays allocated after Destroy.
-   On the current tree the faithful model REFUTES both: *)
+   On the current tree the faithful model REFUTES the first: *)
 
 (* 1. entry_point is set only when undefined (scanner.c 536) and never reset: [scan PE; scan text] *)
 Theorem history_independent_refuted : ~ history_independent_statement [] toy_oracle.
 Proof. exact history_independent_refuted_proof. Qed.
 Print Assumptions history_independent_refuted.
 
-(* 2. a scan that returned ERROR_BLOCK_NOT_READY and is never resumed: the next scan starts over its
-      matches (and its notebook is overwritten, i.e. lost) *)
-Theorem history_independent_refuted_abandoned :
-  exists h i, st_alive (run_state [] toy_oracle (fresh []) h) = true /\
-    snd (step [] toy_oracle (run_state [] toy_oracle (fresh []) h) (Scan i [] None)) <>
-    snd (step [] toy_oracle (run_state [] toy_oracle (fresh []) (filter is_setting h)) (Scan i [] None)) /\
-    st_leaked (fst (step [] toy_oracle (run_state [] toy_oracle (fresh []) h) (Scan i [] None))) = 1%nat.
-Proof. exact history_independent_refuted_abandoned_proof. Qed.
-Print Assumptions history_independent_refuted_abandoned.
+(* 2. (was: a scan left at ERROR_BLOCK_NOT_READY and never resumed leaked its matches into the next scan
+      and lost its notebook -- repaired in /repo by 8a2210d; the model follows the repaired code and
+      abandoned suspensions are now inside the theorems below) *)
 
 (* 3. an external variable with the name of a module is removed from objects_table by
       yr_modules_unload_all at the end of the first scan *)
@@ -36,14 +30,10 @@ Theorem history_independent_refuted_module_name : ~ history_independent_statemen
 Proof. exact history_independent_refuted_module_name_proof. Qed.
 Print Assumptions history_independent_refuted_module_name.
 
-(* 4. yr_scanner_destroy does not release matches_notebook: destroy while a scan waits for a block *)
-Theorem destroy_any_prefix_no_leak_refuted : ~ destroy_no_leak_statement [] toy_oracle.
-Proof. exact destroy_no_leak_refuted_proof. Qed.
-Print Assumptions destroy_any_prefix_no_leak_refuted.
-
-(* What holds, for every rule set (oracle), every module table, all histories that do not abandon a
-   suspended scan ([hist_ok]) and whose externals are not named like modules: the ONLY channel from
-   the history into a scan is the entry_point field. *)
+(* What holds, for every rule set (oracle), every module table, ALL histories of scans (completed,
+   aborted or failed from the callback, timed out, suspended and resumed or abandoned), setting
+   changes and defines that do not crash ([hist_ok]: no NULL string), whose externals are not named
+   like modules: the ONLY channel from the history into a scan is the entry_point field. *)
 Theorem history_independent_partial :
   forall modnames oracle o h i sc nr,
   no_module_names modnames o = true ->
@@ -90,6 +80,9 @@ Theorem destroy_any_prefix_no_leak_partial :
 Proof. exact destroy_no_leak_partial_proof. Qed.
 Print Assumptions destroy_any_prefix_no_leak_partial.
 
+(* destroy after any prefix, also while a scan waits for a block, leaves nothing allocated: the
+   hypotheses are those of the theorem above (the scanner model has no other owner of memory; the
+   engine's own allocations during a scan are outside the model and are checked with ASan) *)
 (* non-vacuity: a history with PE, suspended-and-resumed, aborted, failed and timed-out scans
    satisfies the hypotheses (and records an entry point) *)
 Example c10_hypotheses_satisfiable :
@@ -98,3 +91,10 @@ Example c10_hypotheses_satisfiable :
   hist_ok [7%N] toy_oracle (fresh [(5%N, PI 3)]) (example_history ++ [Destroy]) = true /\
   st_alive (run_state [7%N] toy_oracle (fresh [(5%N, PI 3)]) example_history) = true.
 Proof. destruct hypotheses_satisfiable as (A & B & C & D & _). auto. Qed.
+
+(* ... and one that abandons a suspended scan and is destroyed while another one waits *)
+Example c10_abandon_satisfiable :
+  hist_ok [] toy_oracle (fresh []) ([Scan inp_blocks [] (Some 1%nat); Scan inp_text [] None; Scan inp_blocks [] (Some 1%nat)] ++ [Destroy]) = true /\
+  snd (run [] toy_oracle (fresh []) [Scan inp_blocks [] (Some 1%nat); Scan inp_text [] None; Scan inp_blocks [] (Some 1%nat); Destroy]) =
+    [TScan [] ERROR_BLOCK_NOT_READY; TScan [(KRule, 0%N); (KRule, 10%N); (KFinished, 0%N)] 0; TScan [] ERROR_BLOCK_NOT_READY; TDestroyed 0].
+Proof. vm_compute. split; reflexivity. Qed.
